@@ -412,7 +412,9 @@ class World:
             # blank state of a new simulation (a mesh replacement must not carry the old fields over)
             return frec
         for pt in s.Get_problemTypes():
-            f._Set_solutions(pt, s._Get_u_n(pt), s._Get_v_n(pt), s._Get_a_n(pt))
+            u_, v_, a_ = s._Get_u_n(pt), s._Get_v_n(pt), s._Get_a_n(pt)
+            # rate vectors a class never uses (elliptic-only classes) may still have the size of a previous mesh
+            f._Set_solutions(pt, u_, v_ if v_.shape == u_.shape else None, a_ if a_.shape == u_.shape else None)
         if not rec.hist_live:
             return frec   # internal variables of a previous mesh must not be carried over: the reference keeps blank ones
         if self.typ == "InElastic":
@@ -456,8 +458,9 @@ class World:
         # the live fields, read BEFORE the next solve
         for pt in s.Get_problemTypes():
             grab("u_now:%s" % pt, lambda pt=pt: s._Get_u_n(pt))
-            grab("v_now:%s" % pt, lambda pt=pt: s._Get_v_n(pt))
-            grab("a_now:%s" % pt, lambda pt=pt: s._Get_a_n(pt))
+            if rec.typ != "PhaseField":   # a phase-field simulation is quasi-static: it never reads its rate vectors
+                grab("v_now:%s" % pt, lambda pt=pt: s._Get_v_n(pt))
+                grab("a_now:%s" % pt, lambda pt=pt: s._Get_a_n(pt))
         if rec.typ == "PhaseField":
             # ONE evaluation right after the last change: derived quantities cached on the model must be fresh
             grab("psiP", lambda: s.Result("psiP", nodeValues=False))
